@@ -556,6 +556,31 @@ pub(crate) fn add_to_list(ptr: NonNull<CcBox<()>>) {
 
 // Functions in common between every CcBox<_>
 impl CcBox<()> {
+    #[cfg(feature = "verif-hooks")]
+    pub(crate) fn verif_snapshot(&self) -> crate::verif_hooks::ObjSnapshot {
+        let (counter, tracing_counter) = self.counter_marker.verif_raw();
+
+        #[cfg(feature = "weak-ptrs")]
+        let (metadata_addr, weak_raw) = if self.counter_marker.has_allocated_for_metadata() {
+            // SAFETY: the metadata has been allocated
+            let boxed = unsafe { self.get_metadata_unchecked() };
+            (boxed.as_ptr() as usize, Some(unsafe { boxed.as_ref() }.weak_counter_marker.verif_raw()))
+        } else {
+            (0, None)
+        };
+        #[cfg(not(feature = "weak-ptrs"))]
+        let (metadata_addr, weak_raw) = (0, None);
+
+        crate::verif_hooks::ObjSnapshot {
+            counter_raw: counter,
+            tracing_counter_raw: tracing_counter,
+            next: unsafe { *self.get_next() }.map_or(0, |p| p.as_ptr() as usize),
+            prev: unsafe { *self.get_prev() }.map_or(0, |p| p.as_ptr() as usize),
+            metadata_addr,
+            weak_raw,
+        }
+    }
+
     #[inline]
     pub(super) fn trace_inner(ptr: NonNull<Self>, ctx: &mut Context<'_>) {
         unsafe {
